@@ -278,6 +278,42 @@ static inline TextFamily make_LB1(std::shared_ptr<std::vector<BaseText>> base, u
   return f;
 }
 
+// LX: every byte value 0..255 placed in a token gap after r genuine whitespace bytes (the exact
+// whitespace set, at every position of the cached 64-byte bitmap)
+static inline TextFamily make_LX(std::shared_ptr<std::vector<BaseText>> base, unsigned maxgaps) {
+  TextFamily f;
+  static const unsigned runs[] = {0, 1, 2, 3, 5, 31, 62, 63, 64, 65, 66, 127, 128};
+  const unsigned NR = 13;
+  f.meta.name = "LX_gap_every_byte";
+  f.meta.count = (uint64_t)base->size() * (maxgaps + 1) * NR * 256 * 2;
+  f.meta.group = "LX";
+  f.meta.rule = "each base text with, in one designated position (before the first token, between tokens, after the last), r in {0,1,2,3,5,31,62..66,127,128} spaces followed by one byte of EVERY value 0..255 (optionally followed by one more space): only SP, TAB, LF, CR may be skipped";
+  f.meta.chunk = 8192;
+  f.gen = [base, maxgaps](uint64_t idx, std::string& out) {
+    unsigned after = (unsigned)(idx % 2);
+    idx /= 2;
+    unsigned b = (unsigned)(idx % 256);
+    idx /= 256;
+    unsigned r = runs[idx % 13];
+    idx /= 13;
+    unsigned g = (unsigned)(idx % (maxgaps + 1));
+    idx /= (maxgaps + 1);
+    const BaseText& t = (*base)[idx];
+    if (g > t.toks.size()) return false;  // g == position before token g ; g == size: after the last token
+    out.clear();
+    for (unsigned j = 0; j <= t.toks.size(); j++) {
+      if (j == g) {
+        out.append(r, ' ');
+        out.push_back((char)b);
+        if (after) out.push_back(' ');
+      }
+      if (j < t.toks.size()) out += t.toks[j];
+    }
+    return true;
+  };
+  return f;
+}
+
 // LB2: every assignment of {0,2,3} spaces to all gaps at once, one gap raised to a long run
 static inline TextFamily make_LB2(std::shared_ptr<std::vector<BaseText>> base, unsigned maxtoks) {
   TextFamily f;
@@ -468,6 +504,45 @@ static inline TextFamily make_LW() {
         break;
       }
     }
+    return true;
+  };
+  return f;
+}
+
+// LN: numbers with very long digit strings (big-decimal fallback, 800-digit cap, stack buffers)
+static inline TextFamily make_LN() {
+  TextFamily f;
+  static const unsigned ns[] = {17, 18, 19, 20, 21, 22, 100, 300, 500, 700, 799, 800, 801, 850, 1000, 2000};
+  static const int xs[] = {-400, -340, -330, -315, -300, -100, -20, 0, 20, 100, 290, 308, 400};
+  f.meta.name = "LN_long_numbers";
+  f.meta.count = 16ull * 4 * 3 * 13 * 3;
+  f.meta.group = "LN";
+  f.meta.rule = "numbers with n significant digits for n in {17..22,100,300,500,700,799,800,801,850,1000,2000}, 4 digit patterns (all 9, 123456789 repeated, 1 0..0 1, 5 then 0..0 5), decimal point after the first digit / absent / before all digits, 13 exponents from -400 to 400, as root, array element and member value";
+  f.meta.chunk = 32;
+  f.gen = [](uint64_t idx, std::string& out) {
+    unsigned ctxk = (unsigned)(idx % 3);
+    idx /= 3;
+    int x = xs[idx % 13];
+    idx /= 13;
+    unsigned pp = (unsigned)(idx % 3);
+    idx /= 3;
+    unsigned pat = (unsigned)(idx % 4);
+    unsigned n = ns[idx / 4];
+    std::string d;
+    for (unsigned i = 0; i < n; i++) {
+      char c = '0';
+      switch (pat) {
+        case 0: c = '9'; break;
+        case 1: c = (char)('1' + i % 9); break;
+        case 2: c = (i == 0 || i + 1 == n) ? '1' : '0'; break;
+        case 3: c = (i == 0 || i + 1 == n) ? '5' : '0'; break;
+      }
+      d.push_back(c);
+    }
+    std::string num = pp == 0 ? d.substr(0, 1) + "." + d.substr(1) : pp == 1 ? d : "0." + d;
+    if (pp == 0 && n == 1) num = d;
+    num += "e" + std::to_string(x);
+    out = ctxk == 0 ? num : ctxk == 1 ? "[" + num + "]" : "{\"k\":" + num + "}";
     return true;
   };
   return f;
